@@ -187,6 +187,22 @@ def run(ck):
         if got != sorted(classes.items()):
             ck.fail(["C20", "class-completion", core.sig_hash(sorted(classes.items()))],
                     "class completions differ from the classes of the workspace", {"files": files, "pos": p}, got, sorted(classes.items()))
+    # the same queries on the indexer/handler model (tie of Props/C20Classes.lean: class_completions_exact, class_item_snippet):
+    # the class items as a multiset (the real map is iterated in hash order)
+    mouts = core.model([ws(f, "/main.td", [["completion", "/main.td", p, None]]) for f, p, _ in progs], tag="clsm")
+    ndiff = 0
+    for (files, p, _), o, m in zip(progs, outs, mouts):
+        def canon(x):
+            try:
+                its = json.loads(x)[0]
+                return sorted(json.dumps(it) for it in its) if isinstance(its, list) else its
+            except Exception:
+                return x[:200]
+        if canon(o) != canon(m):
+            ndiff += 1
+            if ndiff <= 3:
+                ck.broke("correspondence", {"stream": "class_completion", "case": {"files": files, "pos": p}, "impl": o[:600], "model": m[:600]})
+    ck.cov["streams"].setdefault("class_completion", {"evaluations": 0, "distinct_nontrivial": 0})["model_disagreements"] = ndiff
     ck.count("class_completion", len(progs), {json.dumps(f, sort_keys=True) for f, _, _ in progs},
              sample={"files": progs[0][0], "pos": progs[0][1], "impl": outs[0][:200]})
     return ck.finish(**FINISH)
